@@ -16,7 +16,7 @@ from pbmc.oracles import dft
 pb = bind_repo()
 PID = "C19"
 
-DTYPES = ["bool", "int8", "uint8", "int16", "uint16", "int32", "int64", "float16", "float32", "float64", "longdouble"]
+DTYPES = ["bool", "int8", "uint8", "int16", "uint16", "int32", "int64", "float16", "float32", "float64", "longdouble", ">f4", ">f8", ">i2"]
 BOUNDS = {"quick": dict(Nmax=16, full=7), "thorough": dict(Nmax=33, full=9)}
 LAYOUTS = [(1, 0), (1, -1), (2, 0), (2, 1), (2, -1), (2, -2), (3, 0), (3, 1), (3, 2), (3, -1), (3, -2), (3, -3)]
 
@@ -92,14 +92,14 @@ def check_case(case):
     res = report.Result()
     N, dt = case["N"], np.dtype(case["dtype"])
     f = pb.utils.real_to_complex
-    want_dtype = np.complex64 if dt == np.float32 else np.complex128
+    want_dtype = np.complex64 if (dt.kind == "f" and dt.itemsize == 4) else np.complex128      # (float32 of either byte order)
     R = oracle_matrix(N)
     V = vectors(N, case["full"], dt)
     nv = len(V)
     E = (R @ V.T.astype(dft.CLD)).T if N else np.zeros((nv, 0), dft.CLD)       # nv x M
     M = (N + 1) // 2
     # accuracy is demanded at the precision the input itself can carry: half/single inputs -> single precision
-    eps = float(np.finfo(np.float32).eps) if dt in (np.dtype("float16"), np.dtype("float32")) else float(np.finfo(np.float64).eps)
+    eps = float(np.finfo(np.float32).eps) if (dt.kind == "f" and dt.itemsize <= 4) else float(np.finfo(np.float64).eps)
     # FFT round-off grows with the coherent sum of the input (DC bin of a constant vector is N): budget 8 eps N max|x|
     tol = 8 * eps * max(N, 4) * max(1.0, float(np.max(np.abs(V))) if V.size else 1.0)
     for rank, axis in LAYOUTS:
@@ -291,7 +291,7 @@ def long_case(case, res):
     ref = a * np.array([(-1) ** m for m in range(a.shape[1])])[None, :]
     eps = float(np.finfo(np.float32 if dt == np.float32 else np.float64).eps)
     # + the double-precision rounding of the mixing phase pi/2 * n itself (the library evaluates exp(-i pi n / 2) in double)
-    tol = (256 * eps * (1 + math.log2(N)) + 8 * math.pi * N * float(np.finfo(np.float64).eps)) * float(np.max(np.abs(xd)))
+    tol = 256 * eps * (1 + math.log2(N)) * float(np.max(np.abs(xd)))          # (the mixing factors 1, -i, -1, i are exact)
     outs = {"axis=1 (keyword)": lambda: f(x, axis=1), "1 (positional)": lambda: f(x, 1), "axis=-1": lambda: f(x, axis=-1),
             "transposed, default axis": lambda: f(np.ascontiguousarray(x.T)).T, "transposed, 0 (positional)": lambda: f(np.ascontiguousarray(x.T), 0).T}
     # the conversion is linear: the same data scaled by 1e-9 and 1e-12 (every sample below 1e-8) gives the scaled result
